@@ -690,7 +690,8 @@ public:
         pc_.reset();
         vc_.reset();
         mc_.reset();
-        assembled_ = false;
+        // a checkpoint assembled from corner values carries grids and data no refinement may touch
+        assembled_ = (p.scn == "durable" && p.variant == 1);
         std::istringstream in(text);
 
         try
